@@ -516,7 +516,9 @@ theorem runStage_pure_same (D : Disc) (h1 : D.samplePops = false) (h2 : D.addFie
     · cases hs
     · split at hs
       · cases hs
-      · cases hs; exact ⟨⟨rfl, rfl, rfl, rfl, rfl⟩, id⟩
+      · split at hs
+        · cases hs
+        · cases hs; exact ⟨⟨rfl, rfl, rfl, rfl, rfl⟩, id⟩
   | .replaceRoot e, w, w', _, hs => by
     simp only [runStage] at hs
     split at hs
